@@ -10,7 +10,7 @@ PIN = {'VFIO_TIME': '1700000000', 'VFIO_PID': '4242', 'VFIO_HOST': 'pinned'}
 ERRNOS = {
     'fopen': ['EACCES'], 'opendir': ['EACCES', 'EMFILE'], 'readdir': ['EIO'], 'closedir': ['EIO'],
     'openat': ['ENOSPC', 'EACCES', 'EMFILE'], 'open': ['EMFILE', 'EACCES'], 'read': ['EIO'], 'write': ['ENOSPC', 'EIO'],
-    'fsync': ['EIO', 'ENOSPC'], 'close': ['EIO'], 'renameat': ['EACCES', 'ENOSPC'], 'unlinkat': ['EACCES', 'EIO'], 'unlink': ['EACCES'],
+    'fsync': ['EIO', 'ENOSPC'], 'close': ['EIO'], 'renameat': ['EACCES', 'ENOSPC', 'ENOENT'], 'unlinkat': ['EACCES', 'ENOENT', 'EIO'], 'unlink': ['EACCES'],
     'mkdir': ['ENOSPC', 'EACCES'], 'mkdtemp': ['EACCES', 'ENOSPC'], 'mkstemp': ['ENOSPC', 'EMFILE'], 'rmdir': ['EACCES'],
     'fstatat': ['EACCES'], 'stat': ['EACCES'], 'utimensat': ['EPERM'], 'dup': ['EMFILE'], 'lseek': ['EIO'], 'fdopen': ['ENOMEM'],
     'fprintf': ['ENOSPC', 'EIO'], 'fflush': ['ENOSPC', 'EIO'], 'fclose': ['EIO', 'ENOSPC'], 'fork': ['EAGAIN'], 'waitpid': ['ECHILD'],
@@ -49,7 +49,7 @@ class Scen:
         env = dict(PIN)
         env.update({'VFIO_LOG': log, 'VFIO_ROOT': sb.root, 'VFIO_RANDOM': str(self.rnd)})
         if self.xdev:
-            env['VFIO_XDEV'] = '1'
+            env['VFIO_XDEV'] = self.xdev if isinstance(self.xdev, str) else '1'
         if plan:
             env['VFIO_PLAN'] = plan
         if extra_env:
@@ -108,6 +108,13 @@ def corpus(tier):
                 k += 1
                 S.append(Scen('%s%s-%d%s' % (rid, '-xdev' if xdev else '', nmsg, '-big' if big else ''), rule,
                               make_msgs(nmsg, big=big, with_label=(rid.startswith('label'))), xdev=xdev, big=big, rnd=5 + k))
+    # a move across file systems followed, in the same run, by moves / renames that stay on one file system (they must remain
+    # plain renames: the second and third message contain a NUL byte, which only a rename carries over - F-10a)
+    for rid, rule in (('move', 'move "DST"'), ('move_flag', 'move "DST" flag !new')):
+        msgs = make_msgs(3)
+        # only the message in new/ (walked first) is on another file system; the two in cur/ carry the NUL
+        msgs = [msgs[0]] + [('cur', '1500000000.%d_1.h:2,S' % i, content.replace(b'line two', b'line\0two')) for i, (sub, name, content) in enumerate(msgs[1:], 1)]
+        S.append(Scen('%s-xdevfirst-3' % rid, rule, msgs, xdev='name:1500000000.0_1.h', rnd=77))
     # stdin delivery with and without rewriting
     for rid, rule in (('stdin_move', 'move "DST"'), ('stdin_label_move', 'label "L" move "DST"'), ('stdin_discard', 'discard')):
         for xdev in (False, True):
@@ -292,6 +299,8 @@ def versions(scen, baseline_tree):
     vs = {}
     for i, (sub, name, content) in enumerate(scen.msgs):
         vs[marker(i)] = {content}
+    if 'label' not in scen.rule and 'add-header' not in scen.rule:
+        return vs                       # no rewriting action: the only legitimate content is the original, byte for byte
     for (md, sub, n), (b, mt) in baseline_tree.items():
         for mk in vs:
             if mk in b:
